@@ -18,6 +18,8 @@ ASSUMPTIONS = TRUSTED_BASE + [
     "proved (slices of the real _propagate_from ASTs, contracts/engines_loops2.py): the CP2K consumption loop (two queues: positions and velocities of frame k are paired, one file frame per phase point, queues stay aligned between polls) "
     "and its failure statement; the GROMACS frame loop (own x / v / box, velocity direction as announced by vel_rev -- refuted on the original tree: fix fa7c73d); the ASE and TurtleMD in-process loops (the arrays the order is computed from are the ones written as frame k; TurtleMD: the xyz buffers are refreshed from the current MD state before the write). "
     "Assumed there: the reader hands out frame k as its k-th item (C13), EngineBase.calculate_order applies vel_rev (E2 clause above), system.vel_rev == reverse on entry (postcondition of EngineBase.propagate)",
+    "in every frame loop: no frame is offered to add_to_path after it reported `stop` (the loop leaves), and the success flag the loop ends with is the outcome of the last frame -- together with the proved add_to_path rule this is "
+    "'stops at the first frame outside the interfaces or at the length limit and reports success only in the former case' for the Python drivers",
     "NOT covered: the polling / waiting code around those loops, GromacsRunner (generator with try/except), process clean-up of GROMACS, retrace-under-time-reversal (engine property)",
 ]
 EXPLANATION = (
